@@ -259,6 +259,12 @@ pub fn cases(tier: Tier, seed: u64) -> Vec<Case> {
         push(0., None, None, l, 3 * n / 2, false);
         push(0., Some(0.001), None, l, 3 * n / 2, true);
     }
+    // ... also when the cooling factor has a magnitude above 1 and the run is long enough for
+    // factor^loops to overflow (0 x inf is not 0): 2^1024, (-3)^647, 1.5^1751, (-2)^1024
+    for &(r, l) in [(-1., 1100u64), (4., 700), (-0.5, 1800), (3., 1100)].iter() {
+        push(0., None, Some(r), l, 6, false);
+        push(0., Some(0.1), Some(r), l, 6, true);
+    }
     // "run until converged": more loops requested than a 32-bit (and a 31-bit, 33-bit) counter
     // holds; the convergence exit ends the run after six loops, whose temperatures must be those
     // of the schedule requested (cooling over billions of loops: practically constant)
